@@ -268,9 +268,30 @@ package main
 //@   wr[h] = spec.HEmpty()
 //@ end
 
+//@ hookset asmcache
+//@ hook before mvdan.cc/garble.goAsmCacheID(id)
+//@   assert("[C06,C17] assembly-name-map-is-keyed-by-the-garble-action-id-of-the-package", str(id[:]) == str(lpkg.GarbleActionID[:]))
+//@ end
+
+//@ hookset asmcachesave
+//@ hook before mvdan.cc/garble.goAsmCacheID(id)
+//@   assert("[C06,C17] assembly-name-map-is-keyed-by-the-garble-action-id-of-the-package", str(id[:]) == str(tf.curPkg.GarbleActionID[:]))
+//@ hook before mvdan.cc/garble.hashWithPackage(pkg, n)
+//@   assert("[C01] type-names-in-go_asm.h-are-hashed-like-the-declarations", pkg == tf.curPkg && n == name)
+//@ hook before mvdan.cc/garble.hashWithStruct(st, f)
+//@   assert("[C01] field-names-in-go_asm.h-are-hashed-with-their-struct", st == strct && f == field)
+//@ end
+
+//@ func (*transformer).saveGoAsmNames
+//@   property C06 C17 C01
+//@   hooks asmcachesave
+//@   requires tf != nil && tf.curPkg != nil
+//@   skip safety call-requires
+//@ end
+
 //@ func loadGoAsmNames
-//@   property C07
-//@   hooks cachemiss
+//@   property C07 C06 C17
+//@   hooks cachemiss asmcache
 //@   requires !anyErr
 //@   ensures @any-error-is-a-miss: anyErr ==> isnil(r0)
 //@ end
@@ -303,7 +324,7 @@ package main
 //@ end
 
 //@ func goAsmCacheID
-//@   property C06
+//@   property C06 C17
 //@   spec hashstate.smt2
 //@   hooks hasher
 //@   ensures @key: forall j int :: 0 <= j && j < 32 ==> r0[j] == spec.ShaByte(spec.HWriteS(spec.HWriteS(spec.HEmpty(), old(str(garbleActionID[:]))), "\x00go-asm-names-v1\x00"), j)
@@ -324,17 +345,19 @@ package main
 //@ ghost may map[string]bool
 //@ ghost marker map[string]bool
 //@ ghost envShared string
-//@ ghost parent map[string]string
+//@ ghost dirOf map[string]string
 //@ ghost wroteOutsideOwned bool
 //@ ghost tempMade bool
 //@ ghost tempDir string
 //@ ghost removed map[string]bool
+//@ ghost dbgMade bool
+//@ ghost dbgMarked bool
 
 //@ hookset fs
 //@ hook after os.MkdirTemp(dir, pattern) (name, err)
 //@   if err == nil { may[name] = true }
 //@ hook after path/filepath.Join(a, b) (r)
-//@   parent[r] = a
+//@   dirOf[r] = a
 //@   if may[a] || marker[filepath.Join(a, ".garble-debugdir")] { may[r] = true }
 //@ hook after os.ReadDir(p) (entries, err)
 //@   if errors.Is(err, fs.ErrNotExist) || (err == nil && len(entries) == 0) { may[p] = true }
@@ -357,7 +380,11 @@ package main
 //@ hook before os.MkdirAll(p, perm)
 //@   assert("creates-only-under-owned-directories", may[p] || marker[filepath.Join(p, ".garble-debugdir")])
 //@ hook before os.WriteFile(p, data, perm)
-//@   assert("writes-only-under-owned-directories", may[p] || may[parent[p]] || marker[filepath.Join(parent[p], ".garble-debugdir")])
+//@   assert("writes-only-under-owned-directories", may[p] || may[dirOf[p]] || marker[filepath.Join(dirOf[p], ".garble-debugdir")])
+//@ hook after os.WriteFile(p, data, perm) (err)
+//@   if err == nil && p == filepath.Join(flagDebugDir, ".garble-debugdir") { dbgMarked = true }
+//@ hook after os.MkdirAll(p, perm) (err)
+//@   if err == nil && p == flagDebugDir { dbgMade = true }
 //@ hook before os.OpenFile(name, flag, perm)
 //@   assert("files-are-created-exclusively", flag == os.O_RDWR|os.O_CREATE|os.O_EXCL)
 //@   assert("creates-only-under-owned-directories", may[name])
@@ -385,7 +412,7 @@ package main
 //@   property C17 C18 C19
 //@   hooks fs
 //@   may_panic when sharedCache == nil
-//@   assigns ghost may, ghost parent
+//@   assigns ghost may, ghost dirOf
 //@   ensures @fresh-owned-dir: r1 == nil ==> may[r0]
 //@   ensures @may-only-grows: forall q string :: old(may[q]) ==> may[q]
 //@ end
@@ -393,7 +420,7 @@ package main
 //@ func writeDebugDirFile
 //@   property C19
 //@   hooks fs
-//@   assigns ghost may, ghost parent
+//@   assigns ghost may, ghost dirOf
 //@   requires may[flagDebugDir] || marker[filepath.Join(flagDebugDir, ".garble-debugdir")]
 //@   ensures @may-only-grows: forall q string :: old(may[q]) ==> may[q]
 //@ end
@@ -401,13 +428,14 @@ package main
 //@ func toolexecCmd
 //@   property C19 C18 C20 C02 C14
 //@   hooks fs
-//@   requires !anySelected
+//@   requires !anySelected && !dbgMade && !dbgMarked
 //@   spec goflags.smt2
 //@   maxpaths 4000
-//@   assigns *, ghost may, ghost marker, ghost envShared, ghost parent, ghost tempMade, ghost tempDir, ghost removed
+//@   assigns *, ghost may, ghost marker, ghost envShared, ghost dirOf, ghost tempMade, ghost tempDir, ghost removed, ghost dbgMade, ghost dbgMarked
 //@   ensures @env-names-only-an-owned-dir: envShared == "" || may[envShared]
 //@   ensures @temp-dir-is-always-handed-to-the-cleanup: tempMade && !old(tempMade) ==> envShared == tempDir
 //@   ensures @at-most-one-temp-dir: !tempMade ==> envShared == ""
+//@   ensures @debug-dir-carries-its-ownership-marker-before-the-build-starts: [C18,C19] r1 == nil && dbgMade ==> dbgMarked
 //@ end
 
 //@ ghost linkPatched bool
@@ -427,17 +455,57 @@ package main
 //@   property C19 C17 C10
 //@   hooks fs linkrun linker
 //@   maxpaths 4000
-//@   requires !lockHeld && !everLocked && unlocks == 0 && !built && !stamped && !linkPatched && !anySelected
+//@   requires !lockHeld && !everLocked && unlocks == 0 && !built && !stamped && !linkPatched && !anySelected && !dbgMade && !dbgMarked
 //@   ensures @lock-released-once-after-the-link: linkPatched ==> !lockHeld && unlocks == 1
 //@   ensures @no-lock-leak: !lockHeld
 //@   ensures @temp-dir-removed-on-every-exit: [C19] tempMade && !old(tempMade) ==> removed[tempDir]
 //@ end
 
+//@ ghost wsDir string
+
+//@ hookset srcpath
+//@ hook after (*mvdan.cc/garble.listedPackage).obfuscatedSourceDir(p) (r)
+//@   wsDir = r
+//@ end
+
 //@ func (*transformer).writeSourceFile
-//@   property C19 C17 C02
-//@   hooks fs
+//@   property C19 C17 C02 C01
+//@   hooks fs srcpath
 //@   requires may[sharedTempDir] && tf != nil && tf.curPkg != nil && tf.curPkg.ImportPath != ""
 //@   requires flagDebugDir != "" ==> may[flagDebugDir] || marker[filepath.Join(flagDebugDir, ".garble-debugdir")]
+//@   ensures @file-lands-under-the-hashed-directory-of-the-package-in-the-temp-dir: [C01,C02] r1 == nil ==> r0 == filepath.Join(filepath.Join(old(sharedTempDir), wsDir), obfuscated)
+//@   ensures @error-yields-no-path: r1 != nil ==> r0 == ""
+//@ end
+
+// ---- C01/C02: the assembler's two passes agree on where the obfuscated sources are ----
+
+//@ ghost asmObfPkg string
+//@ ghost asmDir string
+//@ ghost asmHashed string
+
+//@ hookset asmfiles
+//@ hook after (*mvdan.cc/garble.listedPackage).obfuscatedImportPath(p) (r)
+//@   asmObfPkg = r
+//@ hook before mvdan.cc/garble.flagSetValue(f, n, v)
+//@   assert("assembler-is-told-the-obfuscated-package-path", n == "-p" && v == asmObfPkg)
+//@ hook before mvdan.cc/garble.hashWithPackage(pkg, n)
+//@   assert("[C02] assembly-file-names-are-hashed-with-the-package-from-the-base-name", pkg == tf.curPkg && n == filepath.Base(path))
+//@ hook after mvdan.cc/garble.hashWithPackage(pkg, n) (r)
+//@   asmHashed = r
+//@ hook after (*mvdan.cc/garble.listedPackage).obfuscatedSourceDir(p) (r)
+//@   assert("second-pass-looks-in-the-directory-of-the-package-being-assembled", p == tf.curPkg)
+//@   asmDir = r
+//@ hook before (*mvdan.cc/garble.transformer).writeSourceFile(t, b, o, content)
+//@   assert("[C02] first-pass-writes-sources-under-hashed-names-and-headers-under-garbled-names", o == asmHashed + ".s" || o == "garbled_" + b)
+//@ end
+
+//@ func (*transformer).transformAsm
+//@   property C01 C02
+//@   hooks asmfiles
+//@   requires tf != nil && tf.curPkg != nil
+//@   skip safety call-requires
+//@   maxpaths 6000
+//@   may_panic when true
 //@ end
 
 //@ func restoreDebugArtifactsForPkg
@@ -610,7 +678,7 @@ package main
 //@   hooks revstream revkey fs
 //@   maxpaths 4000
 //@   skip safety
-//@   requires !anySelected
+//@   requires !anySelected && !dbgMade && !dbgMarked
 //@   unclaimed hashWithPackage/requires because the names come from go list output and from parsed declarations; that those are non-empty is an invariant of go/parser and cmd/go, not of this function
 //@   unclaimed hashWithStruct/requires because the field objects come from go/types and the content ID from the shared cache written by the parent process
 //@   case_calls *ast.FuncDecl: addHashedWithPackage
@@ -849,7 +917,7 @@ package main
 //@   property C13 C19
 //@   hooks mapnames parse fs
 //@   maxpaths 4000
-//@   requires !anySelected
+//@   requires !anySelected && !dbgMade && !dbgMarked
 //@   skip safety
 //@   unclaimed obfuscatedObjectName/requires because the transformer and its package are non-nil whenever transformerForListedPackage reports no error; the remaining precondition is about go/types
 //@   unclaimed obfuscatedImportPath/requires because import paths of listed packages are non-empty by construction of go list
